@@ -19,7 +19,10 @@ SPEC = dict(
                  'writes inside the attached range are allowed (statement); everything else of a foreign block must stay unchanged',
                  'the terminator is read only when the model says "owning" and the object holds an allocation',
                  'raw pointers into the receiver\'s own storage are not passed as arguments (b.append((byte*)b, n)); removeFront/removeBack arguments exceed size() by at most 64; '
-                 'attached memory outlives the buffer attached to it; buffers stay below ~25 kB in histories (1 MiB chunks in the backlog mode)'],
+                 'attached memory outlives the buffer attached to it; buffers stay below ~25 kB in histories (1 MiB chunks in the backlog mode)',
+                 'fallback build (-DVERIF_NO_PRIVATE): sizes are aimed at the branch boundaries with capacity(), size(), the place of the exposed view and the harness\'s own head-room estimate; '
+                 'branch / state classes are recorded as branches_estimated / op_state_cells_estimated; the structural check of a buffer without allocation is reduced to: the view never lies inside '
+                 'another Buffer object and never leaves the foreign block it starts in; the terminator is read when the model says "owning" and the view is storage of the buffer\'s own'],
     technique='reference byte queue + ownership flag, guarded foreign blocks, ASan/UBSan/LSan',
     exhaustive={Q: False, T: False},
     jobs=[
